@@ -221,8 +221,8 @@ func condScenario(mk func() *qa, k int, prod [][]int, closer, anyway, prior bool
 // ---- retry-until-accepted adds on a bounded lane ----
 //
 // The *Anyway adds sleep and retry while the lane is full.  time.Sleep in the queue packages is
-// redirected to a scheduler-visible wait: the sleeper is parked until some other thread has taken a
-// step (a retry without any progress elsewhere would find the lane exactly as full), so the retry
+// redirected to a scheduler-visible wait: the sleeper is parked until a pop or an add of
+// another thread has returned (a retry without such progress would find the lane exactly as full), so the retry
 // loop is explored without unrolling it.
 type anyQ struct {
 	name           string
@@ -233,7 +233,7 @@ type anyQ struct {
 var anyMakers = []func() *anyQ{
 	func() *anyQ {
 		x := q.NewQ(q.WithSize(1))
-		return &anyQ{"pipe/q(cap=1)", func(v int) bool { return x.AddReq(v) == nil }, func(v int) bool { return x.AddReqAnyway(v, time.Millisecond) == nil }, func() (int, bool) { return iv(x.Pop()) }}
+		return &anyQ{"pipe/q(cap=1)", func(v int) bool { return x.AddReq(v) == nil }, func(v int) bool { return x.AddReqAnyway(v, 0) == nil }, func() (int, bool) { return iv(x.Pop()) }}
 	},
 	func() *anyQ {
 		x := async.NewQ(1)
@@ -257,10 +257,11 @@ func anywayScenario(mk func() *anyQ, consumers int, prog []int) *mc.Scenario {
 	probe := mk()
 	return &mc.Scenario{Name: fmt.Sprintf("%s/retrying-add/consumers=%d/producer=%v", probe.name, consumers, prog), PB: [2]int{2, 3}, NoStateCache: true,
 		Main: func(w *mc.World) {
+			progress := 0 // bumped whenever a pop or an add returns: a retry makes sense only after one of those
 			vtime.SleepFn = func(time.Duration) {
-				s := w.S
-				n0 := s.Steps
-				vsync.BlockOn(func() bool { return s.Steps > n0+1 })
+				w.Touch()
+				p0 := progress
+				vsync.BlockOn(func() bool { return progress != p0 })
 			}
 			x := mk()
 			got := make([]popRes, consumers)
@@ -269,6 +270,7 @@ func anywayScenario(mk func() *anyQ, consumers int, prog []int) *mc.Scenario {
 				w.Go(fmt.Sprintf("consumer%d", i), func() {
 					v, ok := x.pop()
 					w.Touch()
+					progress++
 					got[i] = popRes{v, ok}
 				})
 			}
@@ -284,8 +286,9 @@ func anywayScenario(mk func() *anyQ, consumers int, prog []int) *mc.Scenario {
 					} else {
 						ok = x.add(it)
 					}
+					w.Touch()
+					progress++
 					if ok {
-						w.Touch()
 						accepted++
 					}
 				}
@@ -306,6 +309,54 @@ func anywayScenario(mk func() *anyQ, consumers int, prog []int) *mc.Scenario {
 				w.Failf("%d items accepted, %d consumers, but %d items handed out: %s", accepted, consumers, n, fmtRes(got))
 			}
 			w.Obs("res=%s accepted=%d", fmtRes(got), accepted)
+		}}
+}
+
+// anywayMany: several producers retrying on one full bounded lane, one consumer popping several times in
+// a row (so that it parks again before a woken producer has re-added).
+func anywayMany(mk func() *anyQ, pops int, producers [][]int) *mc.Scenario {
+	probe := mk()
+	return &mc.Scenario{Name: fmt.Sprintf("%s/retrying-adds/one-consumer-pops=%d/producers=%v", probe.name, pops, producers), PB: [2]int{2, 3}, NoStateCache: true,
+		Main: func(w *mc.World) {
+			progress := 0 // bumped whenever a pop or an add returns: a retry makes sense only after one of those
+			vtime.SleepFn = func(time.Duration) {
+				w.Touch()
+				p0 := progress
+				vsync.BlockOn(func() bool { return progress != p0 })
+			}
+			x := mk()
+			got := 0
+			w.Go("consumer", func() {
+				for i := 0; i < pops; i++ {
+					_, ok := x.pop()
+					w.Touch()
+					progress++
+					if ok {
+						got++
+					}
+				}
+			})
+			for pi, prog := range producers {
+				prog := prog
+				w.Go(fmt.Sprintf("producer%d", pi), func() {
+					for _, it := range prog {
+						if it < 0 {
+							if !x.addAnyway(-it) {
+								w.Failf("the retrying add of %d gave up on an open queue", -it)
+							}
+						} else {
+							x.add(it)
+						}
+						w.Touch()
+						progress++
+					}
+				})
+			}
+			w.Join()
+			w.Touch()
+			if got != pops {
+				w.Failf("%d pops returned an item, want %d", got, pops)
+			}
 		}}
 }
 
@@ -450,6 +501,7 @@ func scenarios(r *ev.Run) []*mc.Scenario {
 		}
 	}
 	for _, mk := range anyMakers {
+		scs = append(scs, anywayMany(mk, 3, [][]int{{-1}, {-2}, {-3}}), anywayMany(mk, 2, [][]int{{1, -2}, {-3}}))
 		scs = append(scs, anywayScenario(mk, 2, []int{1, -2}), anywayScenario(mk, 2, []int{-1, -2}), anywayScenario(mk, 3, []int{1, -2, -3}))
 	}
 	scs = append(scs,
